@@ -737,20 +737,278 @@ Proof.
   apply pad_eq; auto. intro E. destruct ws; [rewrite WD; reflexivity | discriminate].
 Qed.
 
-(* one directive, non-numeric conversions *)
-Lemma dir_sim : forall t d r, spec_directive t = Some (IDir d, r) -> nonnum d = true ->
+
+(* ------------------------------------------------------------------ numeric arguments: strtoimax = ParseInt on the Spec's domain *)
+Definition pu_digit (c : N) : option N :=
+  if is_dec c then Some (c - 48) else if in_rng 97 122 (lower c) then Some (lower c - 97 + 10) else None.
+Definition opt_is (o : option N) (v : N) : bool := match o with Some x => x =? v | None => false end.
+
+Lemma pu_step : forall base c t n us d, (c =? 95) = false -> pu_digit c = Some d -> (base <=? d) = false ->
+  (MAXU64 / base + 1 <=? n) = false -> (MAXU64 <? n * base + d) = false ->
+  pu_loop base (c :: t) n us = pu_loop base t (n * base + d) us.
+Proof.
+  intros base c t n us d H95 HD HB H1 H2. cbn [pu_loop]. rewrite H95. fold (pu_digit c). rewrite HD, HB, H1.
+  cbv zeta. rewrite H2. reflexivity.
+Qed.
+
+Definition digit_fact (p : N -> bool) (base c : N) : bool :=
+  implb (p c) (negb (c =? 95) && opt_is (pu_digit c) (digit_val c) && (digit_val c <? base)).
+
+Lemma digit_facts : forall p base, (forall c, p c = true -> c < 128) ->
+  forallb (digit_fact p base) (map N.of_nat (seq 0 128)) = true ->
+  forall c, p c = true -> (c =? 95) = false /\ pu_digit c = Some (digit_val c) /\ (base <=? digit_val c) = false.
+Proof.
+  intros p base Hb H c Hp. pose proof (bounded_forall _ 128 H c (Hb c Hp)) as F.
+  unfold digit_fact in F. rewrite Hp in F. simpl in F.
+  apply andb_prop in F as [F F3]. apply andb_prop in F as [F1 F2].
+  repeat split.
+  - destruct (c =? 95); [discriminate|reflexivity].
+  - unfold opt_is in F2. destruct (pu_digit c) as [x|]; [|discriminate]. apply N.eqb_eq in F2. congruence.
+  - lia.
+Qed.
+
+Lemma oct_facts : forall c, is_oct c = true -> (c =? 95) = false /\ pu_digit c = Some (digit_val c) /\ (8 <=? digit_val c) = false.
+Proof. apply digit_facts; [intros c H; unfold is_oct, in_rng in H; lia | vm_compute; reflexivity]. Qed.
+Lemma dec_dfacts : forall c, is_dec c = true -> (c =? 95) = false /\ pu_digit c = Some (digit_val c) /\ (10 <=? digit_val c) = false.
+Proof. apply digit_facts; [intros c H; unfold is_dec, in_rng in H; lia | vm_compute; reflexivity]. Qed.
+Lemma hex_facts : forall c, is_hexd c = true -> (c =? 95) = false /\ pu_digit c = Some (digit_val c) /\ (16 <=? digit_val c) = false.
+Proof. apply digit_facts; [intros c H; unfold is_hexd, in_rng in H; lia | vm_compute; reflexivity]. Qed.
+
+Definition dstep (base : N) (n c : N) : N := n * base + digit_val c.
+Lemma fold_ge : forall base s n, 1 <= base -> n <= fold_left (dstep base) s n.
+Proof.
+  intros base; induction s as [|c t IH]; intros n Hb; simpl; [lia|].
+  specialize (IH (dstep base n c) Hb). unfold dstep in *. nia.
+Qed.
+
+Lemma pu_loop_ok : forall p base,
+  (forall c, p c = true -> (c =? 95) = false /\ pu_digit c = Some (digit_val c) /\ (base <=? digit_val c) = false) ->
+  1 <= base ->
+  forall s n, forallb p s = true -> fold_left (dstep base) s n <= MAXU64 ->
+  pu_loop base s n false = inl (fold_left (dstep base) s n, false).
+Proof.
+  intros p base HP Hb. induction s as [|c t IH]; intros n Hs Hm; [reflexivity|].
+  simpl in Hs. apply andb_prop in Hs as [Hc Hs]. destruct (HP c Hc) as (A & B & C).
+  simpl fold_left in *.
+  pose proof (fold_ge base t (dstep base n c) Hb) as G. unfold dstep in G at 1.
+  rewrite (pu_step base c t n false (digit_val c) A B C).
+  - apply IH; assumption.
+  - assert (n <= MAXU64 / base) by (apply N.div_le_lower_bound; nia). lia.
+  - lia.
+Qed.
+
+Lemma parse_base_fold : forall base s, parse_base base s = fold_left (dstep base) s 0.
+Proof. reflexivity. Qed.
+
+Lemma lower_oct : forall c, is_oct c = true -> (lower c =? 98) = false /\ (lower c =? 111) = false /\ (lower c =? 120) = false /\ (c =? 120) = false /\ (c =? 88) = false.
+Proof.
+  intros c H. assert (Hc : c < 128) by (unfold is_oct, in_rng in H; lia).
+  pose proof (bounded_forall (fun c => implb (is_oct c)
+     (negb (lower c =? 98) && negb (lower c =? 111) && negb (lower c =? 120) && negb (c =? 120) && negb (c =? 88))) 128 eq_refl c Hc) as F.
+  cbv beta in F. rewrite H in F. simpl in F.
+  destruct (lower c =? 98), (lower c =? 111), (lower c =? 120), (c =? 120), (c =? 88); try discriminate; auto.
+Qed.
+
+(* ParseUint(body, 0, 64) on the bodies the Spec accepts *)
+Lemma parse_uint0_ok : forall body m, spec_magnitude body = Some m -> m <= MAXU64 -> parse_uint0 body = (m, None).
+Proof.
+  intros body m H Hm. unfold spec_magnitude in H. destruct body as [|c0 t0]; [discriminate|].
+  unfold parse_uint0.
+  destruct (c0 =? 48) eqn:E0.
+  - apply N.eqb_eq in E0; subst c0. destruct t0 as [|c1 t1].
+    + inversion H; subst. reflexivity.
+    + destruct ((c1 =? 120) || (c1 =? 88)) eqn:EX.
+      * destruct (nonempty t1 && all_b is_hexd t1) eqn:EH; [|discriminate]. inversion H; subst m. clear H.
+        apply andb_prop in EH as [NE AH].
+        assert (L : lower c1 = 120).
+        { destruct (c1 =? 120) eqn:A; [apply N.eqb_eq in A; subst; reflexivity|].
+          simpl in EX. apply N.eqb_eq in EX; subst; reflexivity. }
+        rewrite L, NE. change (120 =? 98) with false. change (120 =? 111) with false. change (120 =? 120) with true.
+        cbn [andb]. cbv iota.
+        rewrite (pu_loop_ok is_hexd 16 hex_facts ltac:(lia) t1 0 AH); [reflexivity|]. rewrite <- parse_base_fold. exact Hm.
+      * destruct (all_b is_oct (c1 :: t1)) eqn:AO; [|discriminate]. inversion H; subst m. clear H.
+        assert (O1 : is_oct c1 = true) by (simpl in AO; apply andb_prop in AO as [X _]; exact X).
+        destruct (lower_oct c1 O1) as (L1 & L2 & L3 & _).
+        rewrite L1, L2, L3, !andb_false_r. cbv iota.
+        rewrite (pu_loop_ok is_oct 8 oct_facts ltac:(lia) (c1 :: t1) 0 AO); [reflexivity|]. rewrite <- parse_base_fold. exact Hm.
+  - destruct (all_b is_dec (c0 :: t0)) eqn:AD; [|discriminate]. inversion H; subst m. clear H.
+    rewrite (pu_loop_ok is_dec 10 dec_dfacts ltac:(lia) (c0 :: t0) 0 AD); [reflexivity|]. rewrite <- parse_base_fold. exact Hm.
+Qed.
+
+Theorem parse_int0_spec : forall arg v, spec_int arg = Some v -> parse_int0 arg = v.
+Proof.
+  intros arg v H. unfold spec_int in H. destruct arg as [|c t]; [inversion H; reflexivity|].
+  unfold parse_int0.
+  destruct (c =? 45) eqn:E1.
+  - cbn [orb] in *. rewrite orb_true_r.
+    destruct (spec_magnitude t) as [m|] eqn:SM; [|discriminate].
+    destruct (m <=? TWO63) eqn:R; [|discriminate]. inversion H; subst v.
+    rewrite (parse_uint0_ok t m SM); [|unfold TWO63, MAXU64 in *; lia].
+    cbn [negb andb]. assert ((TWO63 <? m) = false) by lia. rewrite H0. reflexivity.
+  - cbn [orb] in *. rewrite orb_false_r.
+    destruct (c =? 43) eqn:E2.
+    + destruct (spec_magnitude t) as [m|] eqn:SM; [|discriminate].
+      destruct (m <? TWO63) eqn:R; [|discriminate]. inversion H; subst v.
+      rewrite (parse_uint0_ok t m SM); [|unfold TWO63, MAXU64 in *; lia].
+      cbn [negb andb]. assert ((TWO63 <=? m) = false) by lia. rewrite H0. reflexivity.
+    + destruct (spec_magnitude (c :: t)) as [m|] eqn:SM; [|discriminate].
+      destruct (m <? TWO63) eqn:R; [|discriminate]. inversion H; subst v.
+      rewrite (parse_uint0_ok (c :: t) m SM); [|unfold TWO63, MAXU64 in *; lia].
+      cbn [negb andb]. assert ((TWO63 <=? m) = false) by lia. rewrite H0. reflexivity.
+Qed.
+
+(* ------------------------------------------------------------------ fmtInteger = C's sign / zero / space padding *)
+Lemma len_app : forall a b, len (a ++ b) = len a + len b.
+Proof. intros; unfold len; rewrite app_length; lia. Qed.
+Lemma len_rep : forall b n, len (rep b n) = n.
+Proof. intros; unfold len, rep; rewrite repeat_length; lia. Qed.
+Lemma len_cons : forall a l, len (a :: l) = 1 + len l.
+Proof. intros; unfold len; cbn [length]; lia. Qed.
+Lemma len_nil : len [] = 0.
+Proof. reflexivity. Qed.
+Lemma rep_zero : forall b n, n = 0 -> rep b n = [].
+Proof. intros; subst; reflexivity. Qed.
+
+Definition c_sign (neg plus space : bool) : str :=
+  if neg then [45] else if plus then [43] else if space then [32] else [].
+
+Lemma fmt_int_eq : forall minus plus space zero W widp neg u base, (widp = false -> W = 0) ->
+  go_fmt_integer (mkf minus plus space zero) W widp neg u base =
+    (if zero && negb minus
+     then c_sign neg plus space ++ rep 48 (W - len (c_sign neg plus space) - len (digits_of base u)) ++ digits_of base u
+     else spec_pad minus W (c_sign neg plus space ++ digits_of base u)).
+Proof.
+  intros minus plus space zero W widp neg u base HW.
+  unfold go_fmt_integer, mkf. cbn [g_minus g_plus g_space g_zero].
+  set (ds := digits_of base u).
+  assert (SG : forall l, (if neg then 45 :: l else if plus then 43 :: l else if space then 32 :: l else l)
+                         = c_sign neg plus space ++ l)
+    by (intro l; unfold c_sign; destruct neg, plus, space; reflexivity).
+  rewrite SG.
+  assert (LS : len (c_sign neg plus space) = if neg || plus || space then 1 else 0)
+    by (unfold c_sign; destruct neg, plus, space; reflexivity).
+  destruct (zero && negb minus) eqn:ZM.
+  - destruct widp.
+    + cbn [andb]. unfold go_pad. cbn [negb orb andb].
+      assert (PE : (if neg || plus || space then W - 1 else W) - len ds = W - len (c_sign neg plus space) - len ds)
+        by (rewrite LS; destruct (neg || plus || space); lia).
+      rewrite PE.
+      destruct (W =? 0) eqn:W0; [reflexivity|].
+      assert (MN : minus = false) by (destruct minus; [destruct zero; discriminate | reflexivity]). subst minus.
+      cbn [negb]. rewrite rep_zero; [reflexivity|].
+      rewrite !len_app, len_rep. lia.
+    + rewrite (HW eq_refl). rewrite andb_false_r. unfold go_pad. cbn [negb orb].
+      rewrite !rep_zero by lia. reflexivity.
+  - cbn [andb]. cbv iota. rewrite (rep_zero 48 (0 - len ds)) by lia. cbn [app].
+    unfold go_pad, spec_pad. rewrite andb_false_l.
+    destruct (negb widp || (W =? 0)) eqn:E.
+    + assert (W = 0) by (destruct widp; [simpl in E; lia | auto]). subst W.
+      rewrite !rep_zero by lia. destruct minus; [rewrite app_nil_r|]; reflexivity.
+    + destruct minus; reflexivity.
+Qed.
+
+Lemma fprintf_int : forall fl zs ws d verb opnd neg u base,
+  go_flags (fl ++ zs ++ ws) g0 = (flags_of d, ws) -> forallb is_dec ws = true -> (length ws <= 7)%nat ->
+  d_width d = parse_base 10 ws ->
+  (match opnd with
+   | VInt z => verb = 100 /\ neg = (z <? 0)%Z /\ u = Z.abs_N z /\ base = 10
+   | VUint x => neg = false /\ u = x /\ ((verb = 100 /\ base = 10) \/ (verb = 111 /\ base = 8) \/ (verb = 120 /\ base = 16))
+   | VStr _ => False end) ->
+  go_fprintf (fl ++ zs ++ ws) verb opnd = Some (go_fmt_integer (flags_of d) (d_width d) (nonempty ws) neg u base).
+Proof.
+  intros fl zs ws d verb opnd neg u base GF HW L7 WD HO. unfold go_fprintf.
+  rewrite GF, (parsenum_width ws HW L7). cbn [nonempty]. cbv iota. rewrite <- WD.
+  destruct opnd as [s|z|x]; [contradiction| |].
+  - destruct HO as (-> & -> & -> & ->). reflexivity.
+  - destruct HO as (-> & -> & [[-> ->]|[[-> ->]|[-> ->]]]); reflexivity.
+Qed.
+
+Section NumStep.
+  Variable brec : str -> outcome.
+  Definition num_result (cv : N) (fuel : nat) (r fmts : str) (args : option (list str)) : outcome :=
+    match take_arg args with
+    | None => GoPanic
+    | Some (arg, args') =>
+        let n := parse_int0 arg in
+        let '(verb, opnd) :=
+          if (cv =? 105) || (cv =? 100) then (100, VInt n)
+          else ((if cv =? 117 then 100 else cv), VUint (to_uint64 n)) in
+        match go_fprintf (tl fmts) verb opnd with
+        | None => Unmodelled
+        | Some o => emit o (loop brec fuel false r [] args')
+        end
+    end.
+
+  Lemma conv_step_num : forall cv, (cv = 100 \/ cv = 105 \/ cv = 117 \/ cv = 111 \/ cv = 120) ->
+    forall fuel r fmts args, nonempty fmts = true ->
+    loop brec (S fuel) false (cv :: r) fmts args = num_result cv fuel r fmts args.
+  Proof.
+    intros cv H fuel r fmts args NF. unfold num_result.
+    destruct H as [->|[->|[->|[->| ->]]]]; cbn [loop];
+      match goal with |- context [?k =? BSL] =>
+        change (k =? BSL) with false; cbv iota; rewrite NF;
+        change (k =? PCT) with false; change (k =? 99) with false; cbv iota;
+        change ((k =? 43) || (k =? 45) || (k =? 32)) with false; change (is_dec k) with false; cbv iota;
+        change ((k =? 115) || (k =? 98) || (k =? 100) || (k =? 105) || (k =? 117) || (k =? 111) || (k =? 120)) with true;
+        cbv iota; destruct (take_arg args) as [[arg args']|]; [|reflexivity];
+        change (k =? 98) with false; cbv iota; change (k =? 115) with false; cbv iota; reflexivity
+      end.
+  Qed.
+End NumStep.
+
+(* numeric conversions: Fprintf of the parsed operand = C's conversion of strtoimax's value *)
+Lemma num_conv_signed : forall fl zs ws d arg o1,
+  go_flags (fl ++ zs ++ ws) g0 = (flags_of d, ws) -> forallb is_dec ws = true -> (length ws <= 7)%nat ->
+  d_width d = parse_base 10 ws -> d_conv d = CvD -> spec_conv d arg = Some o1 ->
+  go_fprintf (fl ++ zs ++ ws) 100 (VInt (parse_int0 arg)) = Some o1.
+Proof.
+  intros fl zs ws d arg o1 GF HW L7 WD K SC. unfold spec_conv in SC. rewrite K in SC. cbv zeta beta iota in SC.
+  destruct (spec_int arg) as [v|] eqn:SI; [|discriminate]. rewrite (parse_int0_spec arg v SI).
+  rewrite (fprintf_int fl zs ws d 100 (VInt v) (v <? 0)%Z (Z.abs_N v) 10 GF HW L7 WD); [|repeat split; reflexivity].
+  unfold flags_of. rewrite fmt_int_eq; [|intro E; destruct ws; [rewrite WD; reflexivity | discriminate]].
+  unfold c_sign. destruct (d_zero d && negb (d_minus d)); inversion SC; reflexivity.
+Qed.
+
+Lemma num_conv_unsigned : forall fl zs ws d arg o1 verb base,
+  go_flags (fl ++ zs ++ ws) g0 = (flags_of d, ws) -> forallb is_dec ws = true -> (length ws <= 7)%nat ->
+  d_width d = parse_base 10 ws ->
+  ((d_conv d = CvU /\ verb = 100 /\ base = 10) \/ (d_conv d = CvO /\ verb = 111 /\ base = 8) \/
+   (d_conv d = CvX /\ verb = 120 /\ base = 16)) ->
+  spec_conv d arg = Some o1 ->
+  go_fprintf (fl ++ zs ++ ws) verb (VUint (to_uint64 (parse_int0 arg))) = Some o1.
+Proof.
+  intros fl zs ws d arg o1 verb base GF HW L7 WD K SC. unfold spec_conv in SC.
+  assert (SC' : (if d_plus d || d_space d then None else
+                 match spec_int arg with
+                 | None => None
+                 | Some v => let ds := digits_of base (to_uint64 v) in
+                             if d_zero d && negb (d_minus d) then Some (rep 48 (d_width d - len ds) ++ ds)
+                             else Some (spec_pad (d_minus d) (d_width d) ds) end) = Some o1).
+  { destruct K as [(K & _ & ->)|[(K & _ & ->)|(K & _ & ->)]]; rewrite K in SC; exact SC. }
+  clear SC. destruct (d_plus d || d_space d) eqn:PS; [discriminate|].
+  apply orb_false_elim in PS as [P S].
+  destruct (spec_int arg) as [v|] eqn:SI; [|discriminate]. rewrite (parse_int0_spec arg v SI).
+  rewrite (fprintf_int fl zs ws d verb (VUint (to_uint64 v)) false (to_uint64 v) base GF HW L7 WD).
+  - unfold flags_of. rewrite fmt_int_eq; [|intro E; destruct ws; [rewrite WD; reflexivity | discriminate]].
+    rewrite P, S. unfold c_sign. cbn [app]. rewrite len_nil, N.sub_0_r. cbv zeta in SC'.
+    destruct (d_zero d && negb (d_minus d)); inversion SC'; reflexivity.
+  - repeat split. destruct K as [(_ & -> & ->)|[(_ & -> & ->)|(_ & -> & ->)]]; auto.
+Qed.
+
+(* one directive, every conversion *)
+Lemma dir_sim : forall t d r, spec_directive t = Some (IDir d, r) ->
   forall args arg args' o1, take_arg (Some args) = Some (arg, Some args') -> spec_conv d arg = Some o1 ->
   forall fuel, exists fuel',
     loop format_b fuel false (PCT :: t) [] (Some args) = OutOfFuel \/
     loop format_b fuel false (PCT :: t) [] (Some args) = emit o1 (loop format_b fuel' false r [] (Some args')).
 Proof.
-  intros t d r SD NN args arg args' o1 TA SC fuel.
+  intros t d r SD args arg args' o1 TA SC fuel.
   destruct (spec_directive_shape t d r SD) as (fl & zs & ws & cv & T & HF & HZ & HW & L7 & W0 & CK & GF & WD).
   subst t.
   destruct (dir_prefix format_b fl zs ws (cv :: r) args HF HZ HW fuel) as [f1 [X|X]]; [exists 0%nat; left; exact X|].
   rewrite X. clear X.
   destruct f1; [exists 0%nat; left; reflexivity|]. exists f1. right.
-  unfold nonnum in NN. unfold conv_of in CK. unfold spec_conv in SC. cbv zeta in SC.
+  pose proof SC as SC0. unfold conv_of in CK. unfold spec_conv in SC. cbv zeta in SC.
   destruct (cv =? 115) eqn:E1.
   { apply N.eqb_eq in E1; subst cv. inversion CK as [K]. rewrite conv_step_s by reflexivity.
     rewrite TA. cbn [tl]. rewrite <- K in SC. cbv beta iota in SC. revert SC.
@@ -772,19 +1030,47 @@ Proof.
     rewrite TA. cbn [tl]. rewrite <- K in SC. cbv beta iota in SC. revert SC.
     destruct (d_zero d && negb (d_minus d) && (0 <? d_width d)) eqn:Z; [intro SC; discriminate|]. intro SC. inversion SC; subst o1.
     rewrite (fprintf_s fl zs ws d _ GF HW L7 WD Z); [reflexivity|]. intros _. apply rune_count_1. }
-  exfalso. destruct ((cv =? 100) || (cv =? 105)); [inversion CK as [K]; rewrite <- K in NN; discriminate|].
-  destruct (cv =? 117); [inversion CK as [K]; rewrite <- K in NN; discriminate|].
-  destruct (cv =? 111); [inversion CK as [K]; rewrite <- K in NN; discriminate|].
-  destruct (cv =? 120); [inversion CK as [K]; rewrite <- K in NN; discriminate|]. discriminate.
+  clear SC. rename SC0 into SC.
+  assert (NUM : forall verb opnd o, go_fprintf (fl ++ zs ++ ws) verb opnd = Some o ->
+     (let '(verb', opnd') := (verb, opnd) in
+      match go_fprintf (tl (PCT :: fl ++ zs ++ ws)) verb' opnd' with
+      | Some o0 => emit o0 (loop format_b f1 false r [] (Some args'))
+      | None => Unmodelled end) = emit o (loop format_b f1 false r [] (Some args'))).
+  { intros verb opnd o E. cbn [tl]. rewrite E. reflexivity. }
+  destruct (cv =? 100) eqn:E4.
+  { apply N.eqb_eq in E4; subst cv. cbn [orb] in CK. inversion CK as [K].
+    rewrite (conv_step_num format_b 100) by (auto; reflexivity). unfold num_result. rewrite TA. cbv zeta.
+    change ((100 =? 105) || (100 =? 100)) with true. cbv iota.
+    apply NUM. apply (num_conv_signed fl zs ws d arg o1 GF HW L7 WD); auto. }
+  destruct (cv =? 105) eqn:E5.
+  { apply N.eqb_eq in E5; subst cv. cbn [orb] in CK. inversion CK as [K].
+    rewrite (conv_step_num format_b 105) by (auto; reflexivity). unfold num_result. rewrite TA. cbv zeta.
+    change ((105 =? 105) || (105 =? 100)) with true. cbv iota.
+    apply NUM. apply (num_conv_signed fl zs ws d arg o1 GF HW L7 WD); auto. }
+  cbn [orb] in CK.
+  destruct (cv =? 117) eqn:E6.
+  { apply N.eqb_eq in E6; subst cv. inversion CK as [K].
+    rewrite (conv_step_num format_b 117) by (auto 6; reflexivity). unfold num_result. rewrite TA. cbv zeta.
+    change ((117 =? 105) || (117 =? 100)) with false. cbv iota. change (117 =? 117) with true. cbv iota.
+    apply NUM. apply (num_conv_unsigned fl zs ws d arg o1 100 10 GF HW L7 WD); auto. }
+  destruct (cv =? 111) eqn:E7.
+  { apply N.eqb_eq in E7; subst cv. inversion CK as [K].
+    rewrite (conv_step_num format_b 111) by (auto 6; reflexivity). unfold num_result. rewrite TA. cbv zeta.
+    change ((111 =? 105) || (111 =? 100)) with false. cbv iota. change (111 =? 117) with false. cbv iota.
+    apply NUM. apply (num_conv_unsigned fl zs ws d arg o1 111 8 GF HW L7 WD); auto 6. }
+  destruct (cv =? 120) eqn:E8; [|discriminate].
+  { apply N.eqb_eq in E8; subst cv. inversion CK as [K].
+    rewrite (conv_step_num format_b 120) by (auto 6; reflexivity). unfold num_result. rewrite TA. cbv zeta.
+    change ((120 =? 105) || (120 =? 100)) with false. cbv iota. change (120 =? 117) with false. cbv iota.
+    apply NUM. apply (num_conv_unsigned fl zs ws d arg o1 120 16 GF HW L7 WD); auto 6. }
 Qed.
-
 (* ------------------------------------------------------------------ one pass over the format *)
-Lemma round_sim : forall sf fmt items, spec_parse sf fmt = Some items -> nonnum_items items = true ->
+Lemma round_sim : forall sf fmt items, spec_parse sf fmt = Some items ->
   forall args o rest, spec_round items args = Some (o, rest) ->
   forall fuel, loop format_b fuel false fmt [] (Some args) = OutOfFuel \/
                loop format_b fuel false fmt [] (Some args) = Done o (Some rest).
 Proof.
-  induction sf; intros fmt items SP NN args o rest SR fuel; simpl in SP; [discriminate|].
+  induction sf; intros fmt items SP args o rest SR fuel; simpl in SP; [discriminate|].
   destruct fuel; [left; reflexivity|].
   destruct fmt as [|c t].
   - inversion SP; subst. simpl in SR. inversion SR; subst. right. reflexivity.
@@ -792,38 +1078,37 @@ Proof.
     + apply N.eqb_eq in EB; subst c.
       destruct (spec_escape MFormat t) as [[eo r]|] eqn:SE; [|discriminate].
       destruct (spec_parse sf r) as [l|] eqn:SP'; [|discriminate]. inversion SP; subst items. clear SP.
-      simpl in NN. simpl in SR. destruct (spec_round l args) as [[o' a']|] eqn:SR'; [|discriminate].
+      simpl in SR. destruct (spec_round l args) as [[o' a']|] eqn:SR'; [|discriminate].
       inversion SR; subst. clear SR.
       pose proof (esc_step format_b MFormat t eo r SE fuel [] (Some args)) as ST. cbn [mode_pb] in ST. rewrite ST.
-      destruct (IHsf r l SP' NN args o' rest SR' fuel) as [L|R]; rewrite ?L, ?R; [left|right]; reflexivity.
+      destruct (IHsf r l SP' args o' rest SR' fuel) as [L|R]; rewrite ?L, ?R; [left|right]; reflexivity.
     + destruct (c =? PCT) eqn:EP.
       * apply N.eqb_eq in EP; subst c.
         destruct (spec_directive t) as [[it r]|] eqn:SD; [|discriminate].
         destruct (spec_parse sf r) as [l|] eqn:SP'; [|discriminate]. inversion SP; subst items. clear SP.
         destruct it as [bs|d].
         -- apply spec_directive_lit in SD as [-> ->].
-           simpl in NN. simpl in SR. destruct (spec_round l args) as [[o' a']|] eqn:SR'; [|discriminate].
+           simpl in SR. destruct (spec_round l args) as [[o' a']|] eqn:SR'; [|discriminate].
            inversion SR; subst. clear SR.
            rewrite pct_start. destruct fuel; [left; reflexivity|].
            cbn [loop]. change (PCT =? BSL) with false. cbv iota. cbn [nonempty]. cbv iota.
            change (PCT =? PCT) with true. cbv iota.
-           destruct (IHsf r l SP' NN args o' rest SR' fuel) as [L|R]; rewrite ?L, ?R; [left|right]; reflexivity.
-        -- simpl in NN. apply andb_prop in NN as [ND NN].
-           cbn [spec_round] in SR.
+           destruct (IHsf r l SP' args o' rest SR' fuel) as [L|R]; rewrite ?L, ?R; [left|right]; reflexivity.
+        -- cbn [spec_round] in SR.
            destruct args as [|a ta].
            ++ destruct (spec_conv d []) as [o1|] eqn:SC; [|discriminate].
               destruct (spec_round l []) as [[o' a']|] eqn:SR'; [|discriminate]. inversion SR; subst. clear SR.
-              destruct (dir_sim t d r SD ND [] [] [] o1 eq_refl SC (S fuel)) as [f' [X|X]]; [left; exact X|].
-              rewrite X. destruct (IHsf r l SP' NN [] o' rest SR' f') as [L|R]; rewrite ?L, ?R; [left|right]; reflexivity.
+              destruct (dir_sim t d r SD [] [] [] o1 eq_refl SC (S fuel)) as [f' [X|X]]; [left; exact X|].
+              rewrite X. destruct (IHsf r l SP' [] o' rest SR' f') as [L|R]; rewrite ?L, ?R; [left|right]; reflexivity.
            ++ destruct (spec_conv d a) as [o1|] eqn:SC; [|discriminate].
               destruct (spec_round l ta) as [[o' a']|] eqn:SR'; [|discriminate]. inversion SR; subst. clear SR.
-              destruct (dir_sim t d r SD ND (a :: ta) a ta o1 eq_refl SC (S fuel)) as [f' [X|X]]; [left; exact X|].
-              rewrite X. destruct (IHsf r l SP' NN ta o' rest SR' f') as [L|R]; rewrite ?L, ?R; [left|right]; reflexivity.
+              destruct (dir_sim t d r SD (a :: ta) a ta o1 eq_refl SC (S fuel)) as [f' [X|X]]; [left; exact X|].
+              rewrite X. destruct (IHsf r l SP' ta o' rest SR' f') as [L|R]; rewrite ?L, ?R; [left|right]; reflexivity.
       * destruct (spec_parse sf t) as [l|] eqn:SP'; [|discriminate]. inversion SP; subst items. clear SP.
-        simpl in NN. simpl in SR. destruct (spec_round l args) as [[o' a']|] eqn:SR'; [|discriminate].
+        simpl in SR. destruct (spec_round l args) as [[o' a']|] eqn:SR'; [|discriminate].
         inversion SR; subst. clear SR.
         cbn [loop]. rewrite EB. cbn [nonempty andb]. cbv iota. rewrite EP. cbv iota.
-        destruct (IHsf t l SP' NN args o' rest SR' fuel) as [L|R]; rewrite ?L, ?R; [left|right]; reflexivity.
+        destruct (IHsf t l SP' args o' rest SR' fuel) as [L|R]; rewrite ?L, ?R; [left|right]; reflexivity.
 Qed.
 
 Lemma spec_round_suffix : forall items args o rest, spec_round items args = Some (o, rest) ->
@@ -848,22 +1133,22 @@ Proof.
         -- intros _ _. discriminate.
 Qed.
 
-Lemma format_of_round : forall fmt items, spec_parse (S (length fmt)) fmt = Some items -> nonnum_items items = true ->
+Lemma format_of_round : forall fmt items, spec_parse (S (length fmt)) fmt = Some items ->
   forall args o rest, spec_round items args = Some (o, rest) ->
   format fmt (Some args) = FOk o (length args - length rest).
 Proof.
-  intros fmt items SP NN args o rest SR. unfold format, format_into.
-  destruct (round_sim _ fmt items SP NN args o rest SR (S (S (length fmt)))) as [L|R].
+  intros fmt items SP args o rest SR. unfold format, format_into.
+  destruct (round_sim _ fmt items SP args o rest SR (S (S (length fmt)))) as [L|R].
   - exfalso. revert L. apply loop_no_oof; [apply format_b_no_oof | lia].
   - rewrite R. reflexivity.
 Qed.
 
-Lemma rounds_sim : forall fmt items, spec_parse (S (length fmt)) fmt = Some items -> nonnum_items items = true ->
+Lemma rounds_sim : forall fmt items, spec_parse (S (length fmt)) fmt = Some items ->
   forall fuel args o, spec_rounds fuel items args = Some o -> printf_rounds fuel fmt args = BOut o 0.
 Proof.
-  intros fmt items SP NN. induction fuel; intros args o H; simpl in H; [discriminate|].
+  intros fmt items SP. induction fuel; intros args o H; simpl in H; [discriminate|].
   destruct (spec_round items args) as [[o1 rest]|] eqn:SR; [|discriminate].
-  cbn [printf_rounds]. rewrite (format_of_round fmt items SP NN args o1 rest SR).
+  cbn [printf_rounds]. rewrite (format_of_round fmt items SP args o1 rest SR).
   destruct (spec_round_suffix _ _ _ _ SR) as (used & A & B & C).
   assert (N : (length args - length rest = length used)%nat) by (subst args; rewrite app_length; lia).
   rewrite N.
@@ -885,22 +1170,20 @@ Proof.
     rewrite (IHfuel rest o' E). reflexivity.
 Qed.
 
-Theorem printf_matches_nonnum : forall fmt args out st items,
-  spec_printf fmt args = Some (out, st) ->
-  spec_parse (S (length fmt)) fmt = Some items -> nonnum_items items = true ->
-  printf_builtin (fmt :: args) = BOut out st.
+Theorem printf_matches : forall fmt args out st,
+  spec_printf fmt args = Some (out, st) -> printf_builtin (fmt :: args) = BOut out st.
 Proof.
-  intros fmt args out st items H SP NN. unfold spec_printf in H.
+  intros fmt args out st H. unfold spec_printf in H.
   destruct (match fmt with c :: _ => c =? 45 | [] => false end); [discriminate|].
-  rewrite SP in H.
+  destruct (spec_parse (S (length fmt)) fmt) as [items|] eqn:SP; [|discriminate].
   destruct (spec_rounds (S (length args)) items args) as [o|] eqn:E; [|discriminate]. inversion H; subst.
-  unfold printf_builtin. apply (rounds_sim fmt items SP NN _ _ _ E).
+  unfold printf_builtin. apply (rounds_sim fmt items SP _ _ _ E).
 Qed.
 
-(* non-vacuity: printf '%-5s|%c\101%b%%\n' ab xyz 'q\0101' r  is inside the scope, reuses the format once *)
-Definition ex_fmt : str := [37;45;53;115;124;37;99;92;49;48;49;37;98;37;37;92;110].
-Definition ex_args : list str := [[97;98]; [120;121;122]; [113;92;48;49;48;49]; [114]].
-Example printf_matches_nonnum_nonvacuous :
-  exists items out, spec_parse (S (length ex_fmt)) ex_fmt = Some items /\ nonnum_items items = true /\
-    spec_printf ex_fmt ex_args = Some (out, 0) /\ has_dir items = true /\ out <> [].
-Proof. eexists; eexists. vm_compute. repeat split; try reflexivity. discriminate. Qed.
+(* non-vacuity: printf '%-5s|%c\101%b%%%+05d %x %o %3u\n' ab xyz 'q\0101' -42 0xff 010 7 r
+   is inside the scope: every conversion, flags, zero padding, hex/octal arguments, escapes, reuse *)
+Definition ex_fmt : str := [37;45;53;115;124;37;99;92;49;48;49;37;98;37;37;37;43;48;53;100;32;37;120;32;37;111;32;37;51;117;92;110].
+Definition ex_args : list str := [[97;98]; [120;121;122]; [113;92;48;49;48;49]; [45;52;50]; [48;120;102;102]; [48;49;48]; [55]; [114]].
+Example printf_matches_nonvacuous :
+  exists out, spec_printf ex_fmt ex_args = Some (out, 0) /\ printf_builtin (ex_fmt :: ex_args) = BOut out 0 /\ (40 < len out).
+Proof. eexists. vm_compute. repeat split; reflexivity. Qed.
